@@ -1,4 +1,268 @@
 import AkVerif.Gen.C04
 import AkVerif.Lemmas.SrcPos
+/-!
+# C04 — source positions are exact and cover the text
+
+Property theorems only. Everything is about the executable model `SrcPos.tokenize` / `getOrigText` /
+`spanT` that the driver runs, with the offsets `B` *generated from the source* (`Gen.C04.bases`);
+`bases_std` re-decides on every run that they are the 1-based line/column, exclusive end, 0-based
+error column the theorems are stated for.
+
+`re` stands for the library `re` (what it matches where); nothing is assumed about it except, where
+needed, `ReIn` (a match ends inside its line — also checked by the driver on every request).
+A result `.ok toks` already implies that every match advanced (a zero-width match is `outOfFuel`).
+`toks` always ends with `$END$`; `toks.dropLast` are the tokens of the text.
+-/
 namespace C04
+open SrcPos Ak
+
+abbrev B : Bases := Gen.C04.bases
+abbrev ws : Char → Bool := Gen.C04.isSpace
+
+/-- the offsets found in the source are: first position (1,1), lines and columns 1-based, exclusive
+end, 0-based column in `LexicalError`, `- 1` in `get_orig_text` -/
+theorem bases_std : B = Bases.std := by decide
+
+/-- Within a line consecutive tokens are adjacent: if the next token (`$END$` included) starts on the
+line where a token ends, it starts exactly where that token ends. -/
+theorem tok_adjacent (cfg : Cfg) (re : Re) (lines : List (List Char)) (toks : List Tok)
+    (h : tokenize B cfg re lines = .ok toks) (k : Nat) (t u : Tok)
+    (ht : toks[k]? = some t) (hu : toks[k + 1]? = some u) (hline : t.e.line = u.s.line) :
+    t.e = u.s := by
+  rw [bases_std] at h
+  obtain ⟨ts, p, rfl, hl, _⟩ := tokenize_linked h
+  rcases Linked_get hl ht hu with h | ⟨_, h⟩
+  · exact h
+  · omega
+
+/-- The first token of a line starts at its own column on that line: a token that does not start on
+the line where its predecessor ended (and the very first token) starts on a *later* line, at column 1
+— never on the predecessor's line. (`tok_orig_text` adds that the lexeme begins at that very column.) -/
+theorem tok_line_start (cfg : Cfg) (re : Re) (lines : List (List Char)) (toks : List Tok)
+    (h : tokenize B cfg re lines = .ok toks) :
+    (∀ t, toks[0]? = some t → t.s.col = 1 ∧ 1 ≤ t.s.line) ∧
+    (∀ k t u, toks[k]? = some t → toks[k + 1]? = some u → t.e.line ≠ u.s.line →
+      u.s.col = 1 ∧ t.e.line < u.s.line) := by
+  rw [bases_std] at h
+  obtain ⟨ts, p, rfl, hl, _⟩ := tokenize_linked h
+  constructor
+  · intro t ht
+    rcases Linked_head hl ht with h | ⟨h1, h2⟩
+    · rw [← h]; simp
+    · exact ⟨h1, by simp at h2; omega⟩
+  · intro k t u ht hu hne
+    rcases Linked_get hl ht hu with h | h
+    · exact absurd (by rw [h]) hne
+    · exact h
+
+/-- Spans never move backwards in document order: every token of the text is non-empty
+(`start < end`), `$END$` is empty, and every token starts at or after the end of every earlier one;
+nothing starts before (1,1). -/
+theorem tok_monotone (cfg : Cfg) (re : Re) (lines : List (List Char)) (toks : List Tok)
+    (h : tokenize B cfg re lines = .ok toks) :
+    (∀ t ∈ toks.dropLast, t.s < t.e) ∧ (∀ t ∈ toks, t.s ≤ t.e) ∧
+    toks.Pairwise (fun t u => t.e ≤ u.s) ∧ (∀ t ∈ toks, (⟨1, 1⟩ : Pos) ≤ t.s) := by
+  rw [bases_std] at h
+  obtain ⟨ts, p, rfl, hl, hne⟩ := tokenize_linked h
+  have hw : ∀ t ∈ ts ++ [endTok cfg p], t.s ≤ t.e := by
+    intro t ht
+    rcases List.mem_append.mp ht with h | h
+    · exact Pos.le_of_lt (hne t h)
+    · simp at h; subst h; exact Pos.le_refl _
+  exact ⟨by simpa using hne, hw, Linked_pairwise hl hw, Linked_lower hl hw⟩
+
+/-- `get_orig_text` of a token returns exactly the characters it was matched from, for `str` and for
+list-of-lines input. Every token of the text is either
+* an ordinary token made from one match `m` of the token pattern at column `c` of line `i`: then
+  `get_orig_text` is the lexeme `line[c : m.end()]`, which is also the slice of the whole text between
+  the offsets of the token's start and end, or
+* a span token: opener matched at `(i, c)`, closer found by that opener's body matcher at `(j, d)`
+  behind it: then `get_orig_text` is the whole region of the text from the first character of the
+  opener to the last character of the closer. -/
+theorem tok_orig_text (cfg : Cfg) (re : Re) (inp : Input) (toks : List Tok)
+    (hre : ReIn re (tokLines ws inp)) (h : tokenize B cfg re (tokLines ws inp) = .ok toks) :
+    ∀ t ∈ toks.dropLast,
+      (∃ i c m line, IsPlain cfg re (tokLines ws inp) t i c m ∧ (tokLines ws inp)[i]? = some line ∧
+        getOrigText B (origLines inp) t.s t.e = .ok (slice line c m.stop) ∧
+        slice line c m.stop =
+          slice (flatText inp) (offset (origLines inp) i c) (offset (origLines inp) i m.stop)) ∨
+      (∃ i c m j d m', IsSpanTok cfg re (tokLines ws inp) t i c m j d m' ∧
+        getOrigText B (origLines inp) t.s t.e =
+          .ok (slice (flatText inp) (offset (origLines inp) i c) (offset (origLines inp) j m'.stop))) := by
+  rw [bases_std] at h ⊢
+  intro t ht
+  rcases tokenize_origin h t ht with ⟨i, c, m, hp⟩ | ⟨i, c, m, j, d, m', hs⟩
+  · left
+    obtain ⟨line, h1, h2, h3⟩ := plain_orig hp hre (ext_input ws inp)
+    exact ⟨i, c, m, line, hp, h1, h2, by rw [← joinNl_origLines]; exact h3⟩
+  · right
+    exact ⟨i, c, m, j, d, m', hs, by rw [← joinNl_origLines]; exact span_orig hs hre (ext_input ws inp)⟩
+
+/-- The span `get_orig_text` is given may be *any* span inside the text: the result is exactly the
+text between the two positions (slice of the whole text by character offsets). -/
+theorem orig_text_exact (inp : Input) (i j a b : Nat) (li lj : List Char)
+    (hi : (origLines inp)[i]? = some li) (hj : (origLines inp)[j]? = some lj)
+    (ha : a ≤ li.length) (hb : b ≤ lj.length) (hle : i < j ∨ (i = j ∧ a ≤ b)) :
+    getOrigText B (origLines inp) ⟨1 + i, a + 1⟩ ⟨1 + j, b + 1⟩ =
+      .ok (slice (flatText inp) (offset (origLines inp) i a) (offset (origLines inp) j b)) := by
+  rw [bases_std, ← joinNl_origLines]
+  exact getOrigText_flat hi hj ha hb hle
+
+/-- Node spans. `L` = positions of the non-skipped tokens, the tree is laid over them from token `k`
+on and does not swallow `$END$`. Then for the tree and every node below it (`all`, pre-order), with
+`[lo, hi)` the tokens under the node: a node with at least one token spans from the start of its first
+token to the end of its last token; a node that matched nothing has the empty span at the start of
+the following token (`Good`). -/
+theorem node_span (cfg : Cfg) (re : Re) (lines : List (List Char)) (toks : List Tok)
+    (h : tokenize B cfg re lines = .ok toks) (skip : List Nat) (t : Tree) (k : Nat)
+    (sp : Span) (k' : Nat) (all : List NodeInfo)
+    (hs : spanT ((dropSkipped skip toks).map Tok.span) t k = .ok (sp, k', all))
+    (hk : k' < ((dropSkipped skip toks).map Tok.span).length) :
+    k' = k + t.cnt ∧ Good ((dropSkipped skip toks).map Tok.span) ⟨k, k', sp⟩ ∧
+      ∀ n ∈ all, Good ((dropSkipped skip toks).map Tok.span) n := by
+  rw [bases_std] at h
+  obtain ⟨ts, p, rfl, hl, hne⟩ := tokenize_linked h
+  have := noEq_of_tokens hl hne (Pos.le_refl _) skip
+  exact spanT_spec _ t k sp k' all hs (this.mono (by omega))
+
+/-- A `LexicalError` names the line (1-based) and the column (0-based) of a character at which no
+token pattern matches; the only other `LexicalError` is "span is never closed" (an opener was read,
+the text ended before its closer), reported at or before the opener. -/
+theorem lex_error_line (cfg : Cfg) (re : Re) (lines : List (List Char)) (p : Pos)
+    (h : tokenize B cfg re lines = .error (.lexical p)) :
+    (∃ i c line, lines[i]? = some line ∧ c < line.length ∧ re.norm i c = none ∧ p = ⟨1 + i, c⟩) ∨
+    (∃ i c m, IsOpener cfg re lines i c m ∧ p ≤ ⟨1 + i, c + 1⟩) := by
+  rw [bases_std] at h
+  exact tokenize_lexical h
+
+/-- The tokens cover the text: every character of every line the tokenizer iterates over (for a `str`:
+the right-stripped lines) lies inside the span of some token of the text. With `tok_monotone` and
+`tok_adjacent` (spans do not overlap) the token spans tile the text exactly. -/
+theorem tok_cover (cfg : Cfg) (re : Re) (lines : List (List Char)) (toks : List Tok)
+    (h : tokenize B cfg re lines = .ok toks) (i : Nat) (line : List Char) (c : Nat)
+    (hl : lines[i]? = some line) (hc : c < line.length) :
+    ∃ t ∈ toks.dropLast, t.s ≤ ⟨1 + i, c + 1⟩ ∧ (⟨1 + i, c + 1⟩ : Pos) < t.e := by
+  rw [bases_std] at h
+  exact tokenize_cover h i line c hl hc
+
+/-- `$END$` is the last token, it is empty and sits at the end of the last token of the text
+(at (1,1) when the text has no token). -/
+theorem end_token (cfg : Cfg) (re : Re) (lines : List (List Char)) (toks : List Tok)
+    (h : tokenize B cfg re lines = .ok toks) :
+    ∃ ts p, toks = ts ++ [endTok cfg p] ∧ (ts = [] → p = ⟨1, 1⟩) ∧
+      (∀ t, ts.getLast? = some t → p = t.e) := by
+  rw [bases_std] at h
+  obtain ⟨st, ts, hrun, _, rfl⟩ := tokenize_ok h
+  obtain ⟨_, _, h3, _⟩ := RunLines_linked hrun StInv_init
+  refine ⟨ts, st.prevEnd, rfl, ?_, ?_⟩
+  · intro hts; subst hts; simpa [lastEnd] using h3
+  · intro t ht
+    rw [h3]; exact lastEnd_getLast _ ts t ht
+
+/-- `get_orig_text` of every node of the tree returns exactly the text from the first character of
+its first token to the last character of its last token (the empty string for a node that matched
+nothing), for `str` and list-of-lines input. -/
+theorem node_orig_text (cfg : Cfg) (re : Re) (inp : Input) (toks : List Tok)
+    (hre : ReIn re (tokLines ws inp)) (hne : tokLines ws inp ≠ [])
+    (h : tokenize B cfg re (tokLines ws inp) = .ok toks) (skip : List Nat) (t : Tree) (k : Nat)
+    (sp : Span) (k' : Nat) (all : List NodeInfo)
+    (hs : spanT ((dropSkipped skip toks).map Tok.span) t k = .ok (sp, k', all))
+    (hk : k' < ((dropSkipped skip toks).map Tok.span).length) :
+    ∀ n ∈ all, ∃ i a j b, n.span.s = ⟨1 + i, a + 1⟩ ∧ n.span.e = ⟨1 + j, b + 1⟩ ∧
+      getOrigText B (origLines inp) n.span.s n.span.e =
+        .ok (slice (flatText inp) (offset (origLines inp) i a) (offset (origLines inp) j b)) := by
+  have hgood := (node_span cfg re _ toks h skip t k sp k' all hs hk).2.2
+  obtain ⟨_, hw, hpw, _⟩ := tok_monotone cfg re _ toks h
+  rw [bases_std] at h ⊢
+  have hval := tokens_valid h hre hne
+  intro n hn
+  rw [← joinNl_origLines]
+  apply good_orig ?_ ?_ ?_ (hgood n hn)
+  · intro x hx
+    obtain ⟨t, ht, rfl⟩ := List.mem_map.mp hx
+    have := hval t (List.mem_filter.mp ht).1
+    exact ⟨this.1.ext (ext_input ws inp), this.2.ext (ext_input ws inp)⟩
+  · rw [List.pairwise_map]; exact hpw.filter _
+  · intro x hx
+    obtain ⟨t, ht, rfl⟩ := List.mem_map.mp hx
+    exact hw t (List.mem_filter.mp ht).1
+
+/-- A `LexicalError` is raised exactly at the first character the scan reaches (outside a span) that
+no token pattern matches, naming its line (1-based) and column (0-based); the only other case is the
+end of the text reached inside a span. `Reach` = the configurations the scanner goes through. -/
+theorem lex_error_first (cfg : Cfg) (re : Re) (lines : List (List Char)) (p : Pos)
+    (h : tokenize B cfg re lines = .error (.lexical p)) :
+    (∃ i c line, Reach cfg re lines i c none ∧ lines[i]? = some line ∧ c < line.length ∧
+      re.norm i c = none ∧ p = ⟨1 + i, c⟩) ∨
+    (∃ k, Reach cfg re lines lines.length 0 (some k)) := by
+  rw [bases_std] at h
+  exact tokenize_lexical_reach h
+
+/-- A character no token pattern matches raises an error: if the text is tokenized, the token pattern
+matches at every character the scan reaches outside a span. -/
+theorem lex_error_complete (cfg : Cfg) (re : Re) (lines : List (List Char)) (toks : List Tok)
+    (h : tokenize B cfg re lines = .ok toks) (i c : Nat) (line : List Char)
+    (hr : Reach cfg re lines i c none) (hl : lines[i]? = some line) (hc : c < line.length) :
+    ∃ m, re.norm i c = some m := by
+  rw [bases_std] at h
+  exact tokenize_complete h hr hl hc
+
+/-- The model is total on the domain: when no pattern matches the empty string (`ReAdv`), `tokenize`
+returns a token list or a `LexicalError`, never `outOfFuel` (the real code's endless loop). -/
+theorem no_out_of_fuel (cfg : Cfg) (re : Re) (hadv : ReAdv re) (lines : List (List Char)) :
+    (∃ toks, tokenize B cfg re lines = .ok toks) ∨ (∃ p, tokenize B cfg re lines = .error (.lexical p)) := by
+  rw [bases_std]
+  cases hres : tokenize Bases.std cfg re lines with
+  | ok toks => exact Or.inl ⟨toks, rfl⟩
+  | error x =>
+    cases x with
+    | lexical p => exact Or.inr ⟨p, rfl⟩
+    | py e => exact absurd hres (tokenize_no_py cfg re hadv lines e)
+
+/-! ## Non-vacuity
+
+The text `a /* x⏎⏎ y */ b␣␣⏎cd "s"` (a span token over a blank line, trailing blanks, an un-indented
+line) with the `re` answers of the "span-comment" configuration of the harness (names: 0 `$END$`,
+1 `COMMENT`, 3 `COMMENT_ML` (span opener), 5 `DQ_STRING`, 9 `SPACE`, 10 `STRING`, 11 `WORD`).
+All hypotheses of the theorems hold for it and the kernel evaluates the result. -/
+
+def exCfg : Cfg := ⟨[3], [(2, 1), (3, 1), (5, 10)], [], 0⟩
+def exInp : Input := .str "a /* x\n\n y */ b  \ncd \"s\"".toList
+def exTbl : List LineTbl := [
+  ⟨[some ⟨1, 11, 0, 1⟩, some ⟨2, 9, 1, 2⟩, some ⟨4, 3, 2, 4⟩, some ⟨4, 6, 3, 4⟩, some ⟨5, 9, 4, 5⟩, some ⟨6, 11, 5, 6⟩],
+    [[none, none, none, none, none, none]]⟩,
+  ⟨[],
+    [[]]⟩,
+  ⟨[some ⟨1, 9, 0, 1⟩, some ⟨2, 11, 1, 2⟩, some ⟨3, 9, 2, 3⟩, some ⟨4, 6, 3, 4⟩, some ⟨5, 4, 4, 5⟩, some ⟨6, 9, 5, 6⟩, some ⟨7, 11, 6, 7⟩],
+    [[some ⟨5, 0, 0, 3⟩, some ⟨5, 0, 1, 3⟩, some ⟨5, 0, 2, 3⟩, some ⟨5, 0, 3, 3⟩, none, none, none]]⟩,
+  ⟨[some ⟨2, 11, 0, 2⟩, some ⟨2, 11, 1, 2⟩, some ⟨3, 9, 2, 3⟩, some ⟨6, 5, 4, 5⟩, some ⟨5, 11, 4, 5⟩, none],
+    [[none, none, none, none, none, none]]⟩]
+def exRe : Re := reOfTable exCfg.spanKinds exTbl
+
+def exSpans : List Span := [
+  ⟨⟨1, 1⟩, ⟨1, 2⟩⟩, ⟨⟨1, 2⟩, ⟨1, 3⟩⟩, ⟨⟨1, 3⟩, ⟨3, 6⟩⟩, ⟨⟨3, 6⟩, ⟨3, 7⟩⟩, ⟨⟨3, 7⟩, ⟨3, 8⟩⟩,
+  ⟨⟨4, 1⟩, ⟨4, 3⟩⟩, ⟨⟨4, 3⟩, ⟨4, 4⟩⟩, ⟨⟨4, 4⟩, ⟨4, 7⟩⟩, ⟨⟨4, 7⟩, ⟨4, 7⟩⟩]
+
+/-- the tokenizer sees the right-stripped lines -/
+example : tokLines ws exInp = ["a /* x".toList, [], " y */ b".toList, "cd \"s\"".toList] := by
+  decide +kernel
+example : tableOk exCfg.spanKinds (tokLines ws exInp) exTbl = true := by decide +kernel
+theorem ex_reIn : ReIn exRe (tokLines ws exInp) := reOfTable_in _ _ _ (by decide +kernel)
+theorem ex_tokens : ∃ toks, tokenize B exCfg exRe (tokLines ws exInp) = .ok toks ∧
+    toks.map Tok.span = exSpans := ⟨_, rfl, by decide +kernel⟩
+/-- the span token `/* x⏎⏎ y */` and the un-indented `cd`: `get_orig_text` on the `str` -/
+example : getOrigText B (origLines exInp) ⟨1, 3⟩ ⟨3, 6⟩ = .ok "/* x\n\n y */".toList := by decide +kernel
+example : getOrigText B (origLines exInp) ⟨4, 1⟩ ⟨4, 3⟩ = .ok "cd".toList := by decide +kernel
+/-- raw tree of `E → WORD E | STRING E | ()` over the non-skipped tokens `a b cd "s" $END$`:
+node spans, the last one the empty production at `$END$` -/
+example : (spanT [⟨⟨1, 1⟩, ⟨1, 2⟩⟩, ⟨⟨3, 7⟩, ⟨3, 8⟩⟩, ⟨⟨4, 1⟩, ⟨4, 3⟩⟩, ⟨⟨4, 4⟩, ⟨4, 7⟩⟩, ⟨⟨4, 7⟩, ⟨4, 7⟩⟩]
+      (.node (.cons .tok (.cons (.node (.cons .tok (.cons (.node (.cons .tok (.cons (.node
+        (.cons .tok (.cons .nul .nil))) .nil))) .nil))) .nil))) 0).map (fun r => (r.1, r.2.1)) =
+    .ok (⟨⟨1, 1⟩, ⟨4, 7⟩⟩, 4) := by decide +kernel
+/-- a lexical error: `?` on line 2, column 3 (0-based) -/
+example : tokenize B ⟨[], [], [], 0⟩
+    (reOfTable [] [⟨[some ⟨2, 1, 0, 2⟩, some ⟨2, 1, 1, 2⟩], []⟩,
+                   ⟨[some ⟨1, 2, 0, 1⟩, some ⟨2, 1, 1, 2⟩, some ⟨3, 2, 2, 3⟩, none, some ⟨5, 1, 4, 5⟩], []⟩])
+    ["ab".toList, " c ?d".toList] = .error (.lexical ⟨2, 3⟩) := by decide +kernel
+
 end C04
